@@ -19,8 +19,10 @@ PROPS = {
                  'hence signal+ASE+NLI = channel power) proved preserved, for all channel counts and values, by every '
                  'mutator of the class, by construction/selection/merge and by ROADM, fused and amplifier propagation; '
                  '1/GSNR = 1/OSNR_ASE + 1/SNR_NLI proved on the figures the receiver reports, also after update_snr.',
-        'level_note': 'exact real arithmetic instead of floats; numpy element-wise semantics assumed; NLI <= channel power '
-                      'is a stated precondition of add_nli; fibre propagation and the path loop are not yet under contract',
+        'level_note': 'exact real arithmetic instead of floats; numpy element-wise semantics assumed; NLI <= channel power is a stated '
+                      'precondition of add_nli; every accessor of the class (signal / ase / nli in W and dBm, the SNR figures and their '
+                      '0.1 nm versions) is proved to state the share it is named after; a merge of three bands keeps every channel; '
+                      'RamanFiber.propagate is proved with the Raman solver opaque',
         'trusted': NUMPY_TRUST,
         'assumptions': ['NLI handed to add_nli lies in [0, channel power] (the property limits itself to launch powers '
                         'where the first-order NLI estimate stays below the channel power)'],
@@ -122,7 +124,9 @@ PROPS = {
                  'actual loss); set_amplifier_voa / set_one_amplifier (model from the library, gain, VOAs and power target '
                  'set); per-degree ROADM targets populated with exactly one policy.',
         'level_note': 'graph-level claims (one-in/one-out chains, unique names, reachability, every junction amplified, equal '
-                      'split of long fibres) are a bounded stand-in: real designed_network on topologies <= 4 ROADM sites; '
+                      'split of long fibres) are a bounded stand-in: real designed_network on topologies <= 4 ROADM sites (Span max_length '
+                      '60 / 100 / 150 km, C+L multi-band ROADMs, a Raman span with default connectors); a Raman span behind an amplifier '
+                      'without delta_p cannot be designed (known finding F24); '
                       'span_loss / get_next_node / find_first_node are ghost parameters (networkx assumed)',
         'trusted': ['networkx DiGraph accessors (ghost successors/first node of a span)'],
         'extra': [{'name': 'design_complete', 'kind': 'bounded', 'script': 'bounded/design_complete.py', 'timeout': 1500}],
@@ -134,7 +138,7 @@ PROPS = {
                  '(gain = loss since the previous amplifier + change of target + VOA terms; operator offset/gain kept); '
                  'set_one_amplifier with an operator-chosen model (reduction exactly as needed against p_max in power and '
                  'gain mode, hand-over to the next amplifier = power after the VOA); set_amplifier_voa compensation.',
-        'level_note': 'the OMS walk of set_egress_amplifier is checked bounded on designed small topologies (gain = loss + '
+        'level_note': 'the per-band line-head initialisation of set_egress_amplifier (transmitter launch power or the degree\'s ROADM target) is proved; the rest of the OMS walk is checked bounded on designed small topologies (gain = loss + '
                       'change of target along every OMS); "propagating the design load reproduces the powers" depends on '
                       'the gain-profile normalisation (C04, not proved) and is not claimed; span_loss is a ghost',
         'trusted': ['span_loss (graph walk) as a ghost function of (network, node)'],
@@ -149,8 +153,9 @@ PROPS = {
                  'allowed_for_design) with band coverage; Raman models only after a fibre whose loss coefficient is below '
                  'the limit at every frequency.',
         'level_note': 'library size fixed to three models in the select_edfa contract; edfa_nf is an assumed pure function '
-                      '(NF models are C04); capability uses the strict inequalities of the code; multiband preselection '
-                      '(preselect_multiband_amps) is not under contract',
+                      '(NF models are C04); capability uses the strict inequalities of the code; the loop body of the multiband '
+                      'preselection is proved to rate every band against that band\'s own gain / power / tilt targets and the library\'s '
+                      'extended-gain allowance (the rating function opaque); dual-stage entries take the output stage\'s p_max',
         'trusted': ['edfa_nf as a pure function of (gain, model)'],
         'extra': [],
     },
@@ -175,7 +180,7 @@ PROPS = {
                  'congruence by witness); every pair term and the total are non-negative; the default weights must be the '
                  'published ones.',
         'level_note': 'stated assumptions: loss coefficient > 0 (scalar), mean dispersion of every channel pair non-zero, '
-                      'gamma >= 0; beta2/gamma are assumed pure per-channel vectors. Cube law and monotonicity in the pump '
+                      'gamma >= 0; beta2 is proved from the fibre\'s dispersion and slope (scalar dispersion), gamma and alpha are pure per-channel vectors at call sites (alpha proved for a scalar loss coefficient); a user carrier list gives each channel its own carrier\'s figures; that FiberParams hands over the document\'s dispersion, slope, effective area / gamma and loss table is a bounded stand-in. Cube law and monotonicity in the pump '
                       'powers were attempted as two-run harnesses and stay undecided by the solvers: not claimed. Order '
                       'independence follows from the constructor contract of C07 (arrays sorted by one permutation).',
         'trusted': NUMPY_TRUST + ['arcsinh as an uninterpreted increasing odd function; PI, 10 log10(e) as bounded constants'],
